@@ -13,12 +13,12 @@ import (
 
 // query is one log query: a block range (numbers, or -1 = latest) and criteria.
 type query struct {
-	Begin  int64           `json:"begin"`
-	End    int64           `json:"end"`
+	Begin  int64            `json:"begin"`
+	End    int64            `json:"end"`
 	Addrs  []common.Address `json:"addrs"`
-	Topics [][]common.Hash `json:"topics"`
-	Via    string          `json:"via"`  // "filter" | "api" | "api_json" | "api_installed"
-	Tmpl   string          `json:"tmpl"` // template name (forced) or "random"
+	Topics [][]common.Hash  `json:"topics"`
+	Via    string           `json:"via"`  // "filter" | "api" | "api_json" | "api_installed"
+	Tmpl   string           `json:"tmpl"` // template name (forced) or "random"
 }
 
 // matches is the filter semantics written from the JSON-RPC specification
